@@ -172,6 +172,8 @@ def call(ev, name, args, kwargs, lineno, env):
         atol = _kw(kwargs, "atol", args[3] if len(args) > 3 else Fraction(1, 100000000))
         return m2(lambda x, y: isclose(x, y, rtol, atol), "b")
     if name == "isnan":
+        if type(args[0]).__name__ == "PV":
+            return args[0].isnan()
         return m1(isnan, "b")
     if name in ("any", "all") and isinstance(args[0], (list, tuple)):
         vals = list(args[0])
@@ -579,6 +581,8 @@ def builtin(ev, name, args, kwargs, lineno, env):
         x = args[0]
         if isinstance(x, (int, Fraction)):
             return int(x)
+        if type(x).__name__ == "PV":
+            return x.as_int()
         return V.I(x)
     if name == "float":
         return args[0]
@@ -775,7 +779,7 @@ def deepcopy(ev, x):
         return tuple(deepcopy(ev, v) for v in x)
     if isinstance(x, (Arr, ColView)):
         return x.snapshot()
-    if is_scalar(x) or x is None or isinstance(x, str):
+    if is_scalar(x) or x is None or isinstance(x, str) or type(x).__name__ == "PV":
         return x
     raise Unsupported("deepcopy of %r" % (x,))
 
